@@ -319,7 +319,49 @@ def gen(rng, tier):
                 reqs.append(("C10 form %d %s" % (i, " ".join(items))).rstrip())
         else:
             raise ValueError("no generator for form %d" % i)
+    reqs += digit_cells(rng, tier)
     return reqs
+
+def digit_cells(rng, tier):
+    """the case splits that exist only in the DIGIT-level leaves (NB.Model.ScalarD), hit on every run:
+    two-digit scalar (`mul3(&self.data, &[lo, hi])`, `div_rem(self, From::from(other))` with a 2-digit
+    divisor, normalised or not) × big operand with 0 / 1 / 2 / 3 / many digits (the digit-count match of
+    scalar / big, `to_T`, `cmp_slice` against `From::from(other)`), lo = 0, hi top bit set, equality."""
+    out = []
+    M128 = (1 << 128) - 1
+    for k in (1, 2):
+        for t in ([5] if k == 1 else [5, 11]):
+            mx, mn = smax(t), smin(t)
+            scal = [B, B + 1, mx, (1 << 96) + 5, 3 << 100, (1 << 126) + (1 << 64) - 1]
+            if t == 11:
+                scal += [mn, -(B + 1), -(3 << 100)]
+            if tier == "thorough":
+                scal += [rng.randrange(B, mx + 1) for _ in range(6)]
+            j = 0
+            for op in (1, 2, 3, 4, 5):
+                for shape in (1, 2, 3):
+                    i = fid(k, op, shape, t, 0)
+                    for s in scal:
+                        a = abs(s)
+                        bigs = [0, 3, MAX, a - 1, a, a + 1, B, M128, (1 << 128) + 2, big(rng, 3), big(rng, 40)]
+                        if tier == "thorough":
+                            bigs += [big(rng, 2), big(rng, 2) | (1 << 127), a * 3 + 1, a * a + 5, big(rng, 7)]
+                        for m in bigs:
+                            if k == 2:
+                                m = -m if (j % 3 == 1) else m
+                            j += 1
+                            if shape == 2:
+                                out.append("C10 form %d %s %s" % (i, ws(t, s), wb(k, m)))
+                            else:
+                                out.append("C10 form %d %s %s" % (i, wb(k, m), ws(t, s)))
+    # scalar %= BigUint: divisor with 0 / 1 / 2 / 3 digits against every scalar type (digit-level `to_T`,
+    # `BigInt::from(*self).magnitude() == other` as digit-vector equality)
+    for t in ALL:
+        mx, mn, bts = smax(t), smin(t), BITS[t]
+        for s in [mn, mx, 0, 1] + ([-1] if t in SGN else []):
+            for d in [0, 1, abs(s), abs(s) + 1, mx, mx + 1, 1 << bts, MAX, B, M128, M128 + 1, (1 << 128) + 7]:
+                out.append("C10 form %d %s %s" % (fid(1, 5, 5, t, 0), ws(t, s), wu(d)))
+    return out
 
 # ---------------------------------------------------------------------------------------------
 # special step (tools/props.py): cross-check the form table with the harness, report coverage
